@@ -362,6 +362,34 @@ func (s *runtimeState) applyCompiled(compiled config.Compiled) error {
 	return nil
 }
 
+// snapshot returns the per-request lookup state as of one instant. The maps
+// and slices are replaced wholesale on reload and never mutated in place, so
+// sharing them is safe; limiters and the admission controller are shared on
+// purpose. A request that resolves its route, authenticators, limits and
+// targets through one snapshot is served entirely under one configuration.
+func (s *runtimeState) snapshot() *runtimeState {
+	s.mu.RLock()
+	defer s.mu.RUnlock()
+	return &runtimeState{
+		routes:               s.routes,
+		pathToRoute:          s.pathToRoute,
+		trendSignals:         s.trendSignals,
+		adaptiveBackpressure: s.adaptiveBackpressure,
+		pullAuthorize:        s.pullAuthorize,
+		workerAuthorize:      s.workerAuthorize,
+		adminAuthorize:       s.adminAuthorize,
+		pullByRoute:          s.pullByRoute,
+		workerByRoute:        s.workerByRoute,
+		basicByRoute:         s.basicByRoute,
+		forwardByRoute:       s.forwardByRoute,
+		hmacByRoute:          s.hmacByRoute,
+		ingressGlobalLimit:   s.ingressGlobalLimit,
+		ingressRouteLimits:   s.ingressRouteLimits,
+		adaptiveController:   s.adaptiveController,
+		now:                  s.now,
+	}
+}
+
 func (s *runtimeState) updateAllLocked(compiled config.Compiled) {
 	s.routes = compiled.Routes
 	s.pathToRoute = compiled.PathToRoute
@@ -1895,7 +1923,25 @@ func startServers(
 	if err != nil {
 		return nil, fmt.Errorf("ingress listen %q: %w", compiled.Ingress.Listen, err)
 	}
-	ingressHandler := http.Handler(ing)
+	// Each ingress request makes several lookups (route, rate limit, basic,
+	// forward and HMAC auth, limits, targets). Bind them to one snapshot of the
+	// runtime state per request so that a concurrent reload cannot be observed
+	// half-way (e.g. Basic looked up before and HMAC after a switch from HMAC to
+	// Basic auth, which would admit an unauthenticated request).
+	ingressHandler := http.Handler(http.HandlerFunc(func(w http.ResponseWriter, r *http.Request) {
+		snap := state.snapshot()
+		srv := *ing
+		srv.ResolveRoute = snap.resolveIngress
+		srv.AllowedMethodsFor = snap.allowedMethodsFor
+		srv.AllowRequestFor = snap.allowIngress
+		srv.AllowEnqueueFor = snap.allowIngressEnqueue
+		srv.BasicAuthFor = snap.basicAuthFor
+		srv.ForwardAuthFor = snap.forwardAuthFor
+		srv.HMACAuthFor = snap.hmacAuthFor
+		srv.LimitsFor = snap.limitsFor
+		srv.TargetsFor = snap.targetsFor
+		srv.ServeHTTP(w, r)
+	}))
 	ingressHandler = wrapTracingHandler(compiled.Observability.TracingEnabled, "ingress", ingressHandler)
 	if accessLogger != nil {
 		ingressHandler = withAccessLog(accessLogger.With(slog.String("component", "ingress")), ingressHandler)
